@@ -1,5 +1,6 @@
 (* C09, judge of the free-running soak: the final answers of
-   RibModel.rib_run (concat progs) - the writers one after the other - which by
+   RibModel.rib_run (RibConc.effective (concat progs)) - the writers one after
+   the other, requests for an unsupported family being no-ops - which by
    Props_C09.C09_interleaving_equals_sequential is what EVERY interleaving of
    the same writers must end with. Case = the `p` items of engine c09 (schedule
    items are ignored); prints `F` and the final answers like eng_c09. *)
@@ -21,7 +22,7 @@ let run_case (line : string) : string =
       | _ -> ()) items;
   (* progs.(t) is reversed; build thread 0's updates first, tail-recursively *)
   let all = Array.fold_right (fun p acc -> Stdlib.List.rev_append p acc) progs [] in
-  let r = rib_run all in
+  let r = rib_run (RibConc.effective all) in
   let ps = Stdlib.List.sort_uniq compare !pfxs in
   let out = ref ["F"] in
   Stdlib.List.iter (fun af -> Stdlib.List.iter (fun p -> out := Eng_c09.show_query r af p :: !out) ps) [0; 1];
